@@ -135,7 +135,7 @@ func CheckC01(run *evid.Run) {
 		if h.Writers < h.Replicas {
 			run.Count("shared_writer_histories", 1)
 		}
-		if i < 2 {
+		if i < 2 || run.NumSamples() < 2 {
 			run.Sample(histSample(h))
 		}
 	})
@@ -453,7 +453,7 @@ func CheckC02(run *evid.Run) {
 		if tr.nontrivial() {
 			run.NonTrivial(model.ShapeDigest(U))
 		}
-		if i < 2 {
+		if i < 2 || run.NumSamples() < 2 {
 			run.Sample(histSample(h))
 		}
 	})
